@@ -2,3 +2,5 @@
 pub mod runner;
 pub mod stats;
 pub mod tape;
+#[cfg(feature = "pbt")]
+pub mod tapefuzz;
